@@ -228,21 +228,41 @@ func init() {
 	register(&propInfo{
 		id: "C13", patterns: []string{"./internal", "./template", "./config"},
 		trusted: genTrusted,
-		note: "partial: GetReplacement is the two-level map lookup; methodData looks every parameter and result up under exactly (package path, name) of its own named or alias type and hands that replacement to AddVar for that variable only; AddVar with a replacement uses the type found in the loaded package and records only the replacement's package for the variable, without one it uses the variable's type and the imports of that type; inheritance of replace-type across levels is mergeConfigs' typed-map postcondition (C08). Rendering and compilation of the result are not covered.",
+		note:    "partial: GetReplacement is the two-level map lookup; methodData looks every parameter and result up under exactly (package path, name) of its own named or alias type and hands that replacement to AddVar for that variable only; AddVar with a replacement uses the type found in the loaded package and records only the replacement's package for the variable, without one it uses the variable's type and the imports of that type; inheritance of replace-type across levels is mergeConfigs' typed-map postcondition (C08). Rendering and compilation of the result are not covered.",
 	})
 	register(&propInfo{
 		id: "C14", patterns: []string{"./internal", "./template"},
 		trusted: genTrusted,
-		note: "lemma-level: methodData (one Method with the method's name; parameters and results in signature order, bound to the signature's variables, variadic flag only on the last parameter of a variadic signature), typeParams (one entry per type parameter, in order, with its constraint), Generate (one Method per method of the looked-up interface, in order), ResolveVariableNameCollisions (names pairwise distinct and none equal to a name visible before: qualifiers, type strings), varName (generated names are not keywords, predeclared types or template identifiers), AddVar (type string reserved as a name). That the offered strings denote the same Go types (types.TypeString with the registry's qualifiers) is not decided.",
+		note:    "lemma-level: methodData (one Method with the method's name; parameters and results in signature order, bound to the signature's variables, variadic flag only on the last parameter of a variadic signature), typeParams (one entry per type parameter, in order, with its constraint), Generate (one Method per method of the looked-up interface, in order), ResolveVariableNameCollisions (names pairwise distinct and none equal to a name visible before: qualifiers, type strings), varName (generated names are not keywords, predeclared types or template identifiers), AddVar (type string reserved as a name). That the offered strings denote the same Go types (types.TypeString with the registry's qualifiers) is not decided.",
 	})
 	register(&propInfo{
 		id: "C02", patterns: []string{"./internal", "./template"},
 		trusted: genTrusted,
-		note: "lemma-level: Registry.LookupInterface returns the complete interface of the looked-up object and errors on missing or non-interface objects; Generate builds one Method per method of that interface, in order, each from iface.Method(i); methodData reproduces parameter and result counts, order, variables and variadic-ness; ParsePackages never yields function-local types, so no interface is returned twice for that reason. That the templates render what the data model says, and assignability of the result, are the Go type checker's domain and not decided.",
+		note:    "lemma-level: Registry.LookupInterface returns the complete interface of the looked-up object and errors on missing or non-interface objects; Generate builds one Method per method of that interface, in order, each from iface.Method(i); methodData reproduces parameter and result counts, order, variables and variadic-ness; ParsePackages never yields function-local types, so no interface is returned twice for that reason. That the templates render what the data model says, and assignability of the result, are the Go type checker's domain and not decided.",
 	})
 	register(&propInfo{
 		id: "C01", patterns: []string{"./internal", "./template"},
 		trusted: genTrusted,
-		note: "lemma-level (necessary mechanisms only): registry bijection between import paths and qualifiers (C15); import bookkeeping of a variable (MethodScope.addImport, populateImports*: invariants and monotonicity, a named type's own package is recorded); variable names avoid qualifiers, type strings, keywords and template identifiers (C14); findPkgPath reads the module path with the go.mod parser, creates only the output directory and terminates; NewTemplateGenerator's in-package test (same package name and same directory); format dispatches on the three documented formatters and errors otherwise. Whether the rendered text type-checks is not decided by contracts.",
+		note:    "lemma-level (necessary mechanisms only): registry bijection between import paths and qualifiers (C15); import bookkeeping of a variable (MethodScope.addImport, populateImports*: invariants and monotonicity, a named type's own package is recorded); variable names avoid qualifiers, type strings, keywords and template identifiers (C14); findPkgPath reads the module path with the go.mod parser, creates only the output directory and terminates; NewTemplateGenerator's in-package test (same package name and same directory); format dispatches on the three documented formatters and errors otherwise. Whether the rendered text type-checks is not decided by contracts.",
+	})
+	register(&propInfo{
+		id: "C10", patterns: []string{"./internal/cmd", "./internal", "./config", "./template"},
+		trusted: []string{
+			"the table of file-system mutators (os, io/fs, pathlib, afero: WriteFile, MkdirAll, OpenFile, Create, Remove, Rename, Chmod, ...) is complete for the packages reachable from RootApp.Run; external calls outside that table do not write files",
+			"pathlib.Path.WriteFile(b) is os.WriteFile (O_WRONLY|O_CREATE|O_TRUNC then write): a crash or short write in the middle of that system call sequence can leave a partial file; atomicity below the call is the operating system's and is NOT proved (documented limit of the all-or-nothing clause)",
+			"pathlib.Path.Exists reports whether a file exists at the path at that moment; no other process changes the tree between Exists and WriteFile",
+			"remote template download and goimports/gofmt do not write inside the tree",
+		},
+		note: "partial: on the real RootApp.Run and TemplateGenerator.Generate (fs-frame safety): the only reachable file-system mutations are MkdirAll on the parent of an output path and one WriteFile on the output path (plus MkdirAll of the output directory in findPkgPath); the WriteFile receives exactly the bytes Generate returned, and happens only after Generate, MkdirAll and Exists returned nil, and only if the file does not exist or the owning package's effective force-file-write is true; Generate returns no bytes on any failed stage and formats exactly once after a successful execution; output paths are Clean(dir/filename) of a selected mock's config. Atomicity of the write system call itself is assumed.",
+	})
+	register(&propInfo{
+		id: "C09", patterns: []string{"./internal/cmd", "./internal", "./config", "./template"},
+		trusted: append([]string{
+			"os.Exit and zerolog Fatal end the process with the given status; cobra turns a non-nil error from Run into exit status 1 (main.go; outside the check)",
+			"deep.Copy of a configuration struct does not fail (the struct holds only scalars, strings, slices and maps)",
+			"strict decoding of unknown configuration keys is koanf/mapstructure behaviour (ErrorUnused) and outside the check",
+			"no-panic is checked only for the explicit safety obligations generated (nil map writes, index bounds, explicit panic calls, type assertions, contracts' nil-deref safety where enabled); a complete absence-of-panic proof for every dereference is not claimed",
+		}, genTrusted...),
+		note: "partial: on the real RootApp.Run no error of a stage is swallowed (result == nil implies that Initialize, GetPackages, ParsePackages and every per-interface / per-file stage that ran returned nil: loop invariants over ghost last-error records), a run that ends normally has an empty missing-interface map and a non-empty one ends in os.Exit(1); InterfaceCollection.Append rejects exactly mocks whose output file, package name, source package or template differ; ParsePackages fails on load/type errors and never dereferences a failed scope lookup (function-local types); ShouldExcludeSubpkg returns the regex error instead of panicking; getTemplate errors on unknown templates, format on unknown formatters, validateSchema on rejected template-data, ParseTemplates on cyclic values (C11); findPkgPath terminates and uses the go.mod parser. Unknown configuration keys and exit-status plumbing in main are library behaviour.",
 	})
 }
